@@ -976,7 +976,16 @@ func (x *Exec) runInits(h *ssa.Function) {
 }
 
 // allowedInRefused: pure helpers inside otherwise refused packages (time.Duration arithmetic).
+var allowedFuncs = map[string]bool{
+	"(net/http.HandlerFunc).ServeHTTP": true,
+	"(*net/http.Request).Context":      true,
+	"(*net/http.Request).WithContext":  true,
+}
+
 func allowedInRefused(fn *ssa.Function) bool {
+	if allowedFuncs[fn.String()] {
+		return true
+	}
 	if recv := fn.Signature.Recv(); recv != nil {
 		t := recv.Type()
 		if p, ok := t.(*types.Pointer); ok {
